@@ -14,6 +14,8 @@ inductive TStep where
   | endStr (upper : Bool)   -- `endingToString(c, …)` / the field as it is (or through `strings.ToUpper`)
   | txt                     -- `endingToTxtSlice(c, …)` / `sprintTxt(rr.F)`
   | txtPair                 -- two string fields: `sprintTxt([]string{rr.F, rr.G})` / the chunks of `endingToTxtSlice` shared out as HINFO and ISDN do
+  | octet                   -- `endingToOctetString(c, …)` / `sprintTxtOctet(rr.F)`: one string of any length, quoted or not (URI, CAA)
+  | tokStr                  -- the token as it is, which must be a string token (`if l.value != zString { return … }; rr.F = l.token`)
   | txtFirst                -- one string field: `sprintTxt([]string{rr.F})` / the first chunk of `endingToTxtSlice` (UINFO)
   | blank                   -- `c.Next()` that skips the blank / `" "`
   | slurp                   -- `slurpRemainder(c)`
